@@ -708,6 +708,15 @@ var samplerIDs = func() []string {
 	return ids
 }()
 
+// samplerOption builds the sampler an option source names (public constructors only).
+func samplerOption(id string) (sdktrace.Sampler, string) {
+	if id == "parentbased_always_on" { // equal to the built-in default sampler
+		return sdktrace.ParentBased(sdktrace.AlwaysSample()), "WithSampler(ParentBased(AlwaysSample()))"
+	}
+	_, ratio, _ := strings.Cut(id, ":")
+	return sdktrace.TraceIDRatioBased(ratioVal[ratio]), "WithSampler(TraceIDRatioBased(" + fmt.Sprint(ratioVal[ratio]) + "))"
+}
+
 func samplerNameEnv(name Src, conc *Conc) (string, bool) {
 	switch name.K {
 	case "valid":
@@ -787,9 +796,9 @@ func runSamplerCase(c Case, conc *Conc) Outcome {
 		opts := []sdktrace.TracerProviderOption{sdktrace.WithSyncer(exp), sdktrace.WithIDGenerator(gen)}
 		switch opt.K {
 		case "valid":
-			_, ratio, _ := strings.Cut(opt.V, ":")
-			opts = append(opts, sdktrace.WithSampler(sdktrace.TraceIDRatioBased(ratioVal[ratio])))
-			out.Opt = "WithSampler(TraceIDRatioBased(" + fmt.Sprint(ratioVal[ratio]) + "))"
+			smp, text := samplerOption(opt.V)
+			opts = append(opts, sdktrace.WithSampler(smp))
+			out.Opt = text
 		case "nil":
 			opts = append(opts, sdktrace.WithSampler(nil))
 			out.Opt = "WithSampler(nil)"
